@@ -71,10 +71,12 @@ static int d16(void) { cJSON *o = cJSON_Parse("{\"o\":{\"b\":1,\"a\":2}}");
 static int d17(void) { cJSON *a = cJSON_Parse("[1,2]"); int ok = cJSON_InsertItemInArray(a, 0, a); printf("%d\n", ok); return ok != 0; }
 
 static int d18(void) { cJSON *a = cJSON_Parse("[1,2]"); cJSON *r = cJSONUtils_GetPointerCaseSensitive(a, "/"); printf("%p\n", (void*)r); return r != NULL; }
+static int d19(void) { cJSON *o = cJSON_Parse("[1,2]"); cJSON *p = cJSON_Parse("[{\"op\":\"add\",\"path\":\"/1~1\",\"value\":9}]");
+    int st = cJSONUtils_ApplyPatchesCaseSensitive(o, p); char *s = cJSON_PrintUnformatted(o); printf("%d %s\n", st, s); return st == 0; }
 
 int main(int argc, char **argv) {
     int n = argc > 1 ? atoi(argv[1]) : 0;
-    int (*t[])(void) = { 0, d1, d2, d3, d4, d5, d6, d7, d8, d9, d10, d11, d12, d13, d14, d15, d16, d17, d18 };
-    if (n < 1 || n > 18) return 2;
+    int (*t[])(void) = { 0, d1, d2, d3, d4, d5, d6, d7, d8, d9, d10, d11, d12, d13, d14, d15, d16, d17, d18, d19 };
+    if (n < 1 || n > 19) return 2;
     return t[n]();
 }
